@@ -302,6 +302,33 @@ def check_label_values(rep, prog):
                     return 'own'
                 return 'child'
             return None
+        def kinds_by_root(valexpr, pc):
+            """[(reachable on the root?, value kind there), (reachable on a non-root node?, value kind there)] or None when the site is not
+            split by a root test (neither by its path condition nor by a `?:` in the value)"""
+            ve = valexpr.strip_all()
+            vv = ex.var_of(ve)
+            if vv is not None:
+                dv = ex.unique_def(fn, vv)
+                if dv is not None and dv.strip_all().k == 'ConditionalOperator':
+                    ve = dv.strip_all()
+            sel = None
+            if ve.k == 'ConditionalOperator':
+                sel = ex.formula(ve.cond, lambda leaf: is_root_test(leaf))
+            atoms_ = ex.f_atoms(pc)
+            if 'isroot' not in atoms_ and not (sel is not None and ex.f_atoms(sel) == ['isroot']):
+                return None
+            others_ = [a for a in atoms_ if a != 'isroot']
+            out_ = []
+            for isroot in (True, False):
+                reach_ = any(ex.f_eval(pc, dict(dict(zip(others_, vals)), isroot=isroot)) for vals in itertools.product((False, True), repeat=len(others_))) \
+                    if atoms_ else True
+                if sel is not None and ex.f_atoms(sel) == ['isroot']:
+                    branch = ve.then if ex.f_eval(sel, {'isroot': isroot}) else ve.els
+                    kind_ = value_kind(branch)
+                else:
+                    kind_ = value_kind(valexpr)
+                out_.append((reach_, kind_))
+            return out_
         probs, und = [], []
         # stores of labels
         for d in fn.walk():
@@ -310,16 +337,14 @@ def check_label_values(rep, prog):
                 l = ops[0].strip_all()
                 if l.k == 'CXXOperatorCallExpr' and l.op == '[]' and ex.var_of(l.c[1]) is not None and 'first' in prog.vars[ex.var_of(l.c[1])]['name']:
                     pc = guards_formula(cfg, d, is_root_test)
-                    kind = value_kind(ops[1])
-                    if 'isroot' not in ex.f_atoms(pc):
+                    kb = kinds_by_root(ops[1], pc)
+                    if kb is None:
                         und.append('label store at line %d is not under a root / non-root test' % d.line)
                         continue
-                    others = [a for a in ex.f_atoms(pc) if a != 'isroot']
-                    on_root = any(ex.f_eval(pc, dict(zip(others, vals), isroot=True)) for vals in itertools.product((False, True), repeat=len(others)))
-                    on_other = any(ex.f_eval(pc, dict(zip(others, vals), isroot=False)) for vals in itertools.product((False, True), repeat=len(others)))
-                    if on_root and kind != 'own':
+                    (on_root, kind_r), (on_other, kind_o) = kb
+                    if on_root and kind_r != 'own':
                         probs.append('the root is labelled with `%s`, not with itself' % ops[1].text(30))
-                    if on_other and kind != 'carried':
+                    if on_other and kind_o != 'carried':
                         probs.append('a non-root node is labelled with `%s`, not with the label carried from its parent' % ops[1].text(30))
         for d in fn.walk():
             if d.k == 'CXXMemberCallExpr' and d.callee and d.callee['name'] in ('emplace', 'push') and loop.is_ancestor_of(d) and d.args():
@@ -330,17 +355,15 @@ def check_label_values(rep, prog):
                         break
                 if first is None:
                     first = d.args()[0]
-                kind = value_kind(first)
                 pc = guards_formula(cfg, d, is_root_test)
-                if 'isroot' not in ex.f_atoms(pc):
+                kb = kinds_by_root(first, pc)
+                if kb is None:
                     und.append('child push at line %d is not under a root / non-root test' % d.line)
                     continue
-                others = [a for a in ex.f_atoms(pc) if a != 'isroot']
-                on_root = any(ex.f_eval(pc, dict(zip(others, vals), isroot=True)) for vals in itertools.product((False, True), repeat=len(others)))
-                on_other = any(ex.f_eval(pc, dict(zip(others, vals), isroot=False)) for vals in itertools.product((False, True), repeat=len(others)))
-                if on_root and kind != 'child':
+                (on_root, kind_r), (on_other, kind_o) = kb
+                if on_root and kind_r != 'child':
                     probs.append('children of the root are seeded with `%s`, not with their own vertex' % first.text(30))
-                if on_other and kind != 'carried':
+                if on_other and kind_o != 'carried':
                     probs.append('children of a deeper node are seeded with `%s`, not with the label of their parent' % first.text(30))
         if probs:
             rep.violation('R12g', loop, fn, what, '; '.join(sorted(set(probs))), key='R12g|%s|values' % fn.g)
@@ -861,7 +884,10 @@ def run(rep, tier):
     progs = env.extract(tus, 'full')
     rep.saw_programs(progs.values())
     n = 0
+    from . import c07
+    rep.rule('R07k', 'numeric_limits<T>::infinity() only for floating-point T (0 for integral weight types: every distance collapses to 0)', floor=0)
     for prog in progs.values():
+        c07.r07k(rep, prog, only_files=('lex_dijkstra', 'detail/util.hpp', 'sptrees', 'detail/dijkstra'))
         check_comparators(rep, prog)
         check_first_in_path(rep, prog)
         check_label_values(rep, prog)
